@@ -48,8 +48,9 @@ def no_partial(ctx) -> None:
             if isinstance(r, ast.Compare) and len(r.ops) == 1 and call_fname(r.left) == "len" and r.left.args:
                 cm = to_cmp(r, pol)
                 lhs = Poly.symbol(r.left)
-                listed = strip_norm(r.left.args[0])
-                if cm is not None and (cm == Cmp(lhs - C, ">=") or cm == Cmp(lhs - C, "==")):
+                listed = r.left.args[0]
+                planned = (is_sym(listed, "mut") and listed.args[0].value in ("actual_targets", "instructions")) or is_name(listed, "actual_targets") or is_name(listed, "instructions")
+                if planned and cm is not None and (cm == Cmp(lhs - C, ">=") or cm == Cmp(lhs - C, "==")):
                     ok = True
         if not ok:
             bad.append(n)
@@ -84,13 +85,9 @@ def no_partial(ctx) -> None:
         txt = show(rt)
         if "len(" in txt and "C" in txt and "vmax" in txt:
             need["len(vmax)"] = True
-    modes = [n for n in fv.cfg.nodes if n.kind == "test" and isinstance(n.ast, ast.Compare) and is_name(n.ast.left, "mode")]
-    if modes:
-        last = max(modes, key=lambda n: n.ast.lineno)
-        f_succ = [s for s, lab in last.succ if lab == "F"]
-        if f_succ:
-            tgt = fv.cfg.nodes[f_succ[0]]
-            need["mode"] = tgt.kind == "stmt" and isinstance(tgt.ast, ast.Raise) and raise_class(fv, tgt.ast)[0] == "ValueError"
+    for n, test, pol, r in fv.raising_guards():
+        if not pol and isinstance(test, ast.Compare) and is_name(test.left, "mode") and isinstance(test.ops[0], ast.Eq) and raise_class(fv, r)[0] == "ValueError":
+            need["mode"] = True
     for k, v in need.items():
         ctx.rep.check(v, rule, f"{f.qualname}/arg-guard[{k}]", f"invalid `{k}` raises ValueError", f"the argument check `{k}` does not raise ValueError", where=f.where())
 
